@@ -612,7 +612,8 @@ fn c02(tier: Tier) -> i32 {
         c.probe.items.push_str(CTX_ITEMS);
         for (i, fc) in picked.iter().enumerate() {
             let (sv, vv, dv): (String, String, String) = match fc.family {
-                "currency" => ("-1234.5f64".into(), "move || -1234.5f64".into(), "-1234.5".into()),
+                // (more fraction digits than a currency shows: nobody rounds on the way)
+                "currency" => ("2000.505f64".into(), "move || 2000.505f64".into(), "2000.505".into()),
                 "date" => ("the_date()".into(), "move || the_date()".into(), "()".into()),
                 "time" => ("the_time()".into(), "move || the_time()".into(), "()".into()),
                 "datetime" => ("the_datetime()".into(), "move || the_datetime()".into(), "()".into()),
@@ -1596,6 +1597,15 @@ fn c18(tier: Tier) -> i32 {
             } else {
                 e.push((format!("f{i}"), s(vec![text(&format!("[{l}]")), var_fmt("v", &format!(" {}", c.text))])));
             }
+            // a key that takes the formatted key in through a reference (with and without an unrelated argument): the
+            // placeholder keeps its formatter on the way
+            if i % 7 == 0 && l != "fr-CA" {
+                e.push((format!("g{i}"), s(vec![text("<"), fk(&format!("f{i}")), text(">")])));
+                e.push((format!("h{i}"), s(vec![text("<"), fk_args(&format!("f{i}"), vec![("unrelated", FkArg::Str(vec![text("x")]))]), text(">")])));
+            } else if i % 7 == 0 {
+                e.push((format!("g{i}"), Val::Null));
+                e.push((format!("h{i}"), Val::Null));
+            }
         }
         p.set_file(None, l, e);
     }
@@ -1644,6 +1654,14 @@ fn c18(tier: Tier) -> i32 {
                     c.next_id += 1;
                     c.probe.stmts.push(format!("cmp({id}, || td_string!({lv}, f{i}, v = {sv}).to_string(), {prefix}, {direct});"));
                     c.expected.insert(id, Expect { probe: c.probe.name.clone(), what: format!("td_string {} @{l} value {dv}", fc.text), text: "^OK|^SKIP-ICU".into(), suffix: false });
+                    if i % 7 == 0 && vi == 0 {
+                        for k in ["g", "h"] {
+                            let id = c.next_id;
+                            c.next_id += 1;
+                            c.probe.stmts.push(format!("cmp({id}, || td_string!({lv}, {k}{i}, v = {sv}).to_string().trim_start_matches('<').trim_end_matches('>').to_string(), {prefix}, {direct});"));
+                            c.expected.insert(id, Expect { probe: c.probe.name.clone(), what: format!("td_string of a key referencing the key with {} @{l}", fc.text), text: "^OK|^SKIP-ICU".into(), suffix: false });
+                        }
+                    }
                     if vi == 0 && (tier == Tier::Thorough || i % 3 == 0 || early) {
                         let id = c.next_id;
                         c.next_id += 1;
@@ -1823,7 +1841,7 @@ fn c18(tier: Tier) -> i32 {
     rep.nontriv(n_cases as u64 * locales.len() as u64);
     rep.sample(json!({"key": "[fr]{{ v, currency(width: narrow; currency_code: EUR) }}", "probe": "cmp(id, td_string!(Locale::fr_CA, f27, v = 1234567.891f64).to_string(), format!(\"[fr]{}\", d_cur(\"fr-CA\", CurrencyWidth::Narrow, \"EUR\", 1234567.891)))"}));
     let mut cov = serde_json::Map::new();
-    cov.insert("rule".into(), json!(format!("{n_cases} formatter declarations (every name x every documented argument value + omitted + invalid, unknown argument, swapped order) as keys of a project with locales en, fr, de, ja, ar, bn (non-Latin default digits) and fr-CA (all keys null, inherits fr: fr's declaration rendered for fr-CA); for each key x locale x values (numbers 1234567.891, 1234, 0, 42, -42, -9999.5, 1e19, 6.022e23, -0.0, 2^53+1; a fixed date, time, datetime; lists of 3, 1, 2, 0 items) td_string! (all), td! -> html and td_format_string! / td_format_display! / td_format! -> html (quick: the first two declarations of every family and every second or third of the rest) are compared inside the probe with a direct ICU4X call for the locale being rendered; on a context: for the first declaration of every family and every ordered pair of 4 locales, a t_format! / tu_format! / t! view created under the first locale and rendered after set_locale to the second must format for the second; cache histories: every sequence of length <= {} over 6 number-formatter lookups that collide pairwise on locale or on options, each element compared with its direct-ICU value whatever ran before; the number / currency / list declarations again in a probe built WITHOUT icu_compiled_data whose formatters come from a derived IcuDataProvider (set_icu_data_provider) - on the registering thread and on threads spawned afterwards", tier.pick(4, 5))));
+    cov.insert("rule".into(), json!(format!("{n_cases} formatter declarations (every name x every documented argument value + omitted + invalid, unknown argument, swapped order) as keys of a project with locales en, fr, de, ja, ar, bn (non-Latin default digits) and fr-CA (all keys null, inherits fr: fr's declaration rendered for fr-CA); every seventh declaration also through a key that references the formatted key (`$t(f)`, `$t(f, unrelated argument)`); for each key x locale x values (numbers 1234567.891, 1234, 0, 42, -42, -9999.5, 1e19, 6.022e23, -0.0, 2^53+1; a fixed date, time, datetime; lists of 3, 1, 2, 0 items) td_string! (all), td! -> html and td_format_string! / td_format_display! / td_format! -> html (quick: the first two declarations of every family and every second or third of the rest) are compared inside the probe with a direct ICU4X call for the locale being rendered; on a context: for the first declaration of every family and every ordered pair of 4 locales, a t_format! / tu_format! / t! view created under the first locale and rendered after set_locale to the second must format for the second; cache histories: every sequence of length <= {} over 6 number-formatter lookups that collide pairwise on locale or on options, each element compared with its direct-ICU value whatever ran before; the number / currency / list declarations again in a probe built WITHOUT icu_compiled_data whose formatters come from a derived IcuDataProvider (set_icu_data_provider) - on the registering thread and on threads spawned afterwards", tier.pick(4, 5))));
     cov.insert("exhaustive".into(), json!(tier == Tier::Thorough));
     rep.finish(cov, &["ICU4X formatting with compiled data is the reference (trusted base)", "thread interleavings of the cache are the loom engine's part of this check"])
 }
@@ -2062,6 +2080,7 @@ fn c05(tier: Tier) -> i32 {
     let m = Model::new(&p);
     let mut c = Case::new(case_name, p.clone());
     c.probe.items.push_str(CTX_ITEMS);
+    c.probe.items.push_str(LATE_ITEMS);
     if case_name.ends_with("_provider") {
         c.probe.base_features = Some(vec!["ssr", "interpolate_display", "plurals"]);
         c.probe.extra_deps = "icu_plurals = { version = \"1.5\", features = [\"compiled_data\"] }\nicu_provider = \"1.5\"\n".to_string();
@@ -2155,7 +2174,16 @@ impl DataProvider<OrdinalV1Marker> for HarnessProvider {
                     expected(&m, &None, l, &path, &env)
                 })
                 .collect();
-            c.add_count_loop("0u64..=30", "n", &format!("html(td!({}, {base}, count = move || n))", locale_variant(l)), &format!("plural view {base} @{l}"), exp);
+            c.add_count_loop("0u64..=30", "n", &format!("html(td!({}, {base}, count = move || n))", locale_variant(l)), &format!("plural view {base} @{l}"), exp.clone());
+            // the view object made while the count closure gave another number (of another category, most of the time):
+            // the form is chosen when the view is rendered
+            c.add_count_loop(
+                "0u64..=30",
+                "n",
+                &format!("{{ set_late((n as i64 * 7 + 3) % 31); let v = (td!({}, {base}, count = move || late_count() as u64))(); set_late(n as i64); html(v) }}", locale_variant(l)),
+                &format!("plural view {base} @{l}, made under another count"),
+                exp,
+            );
         }
     }
     n += c.expected.len();
@@ -2172,7 +2200,7 @@ impl DataProvider<OrdinalV1Marker> for HarnessProvider {
     let (locales, masks) = (main_locales, all_masks);
     rep.sample(json!({"probe_stmt": "for n in 0u64..=200 { p(base + n as usize, td_string!(Locale::ru, p21c, count = n).to_string()); }", "records": n}));
     let mut cov = serde_json::Map::new();
-    cov.insert("rule".into(), json!(format!("locales {locales:?}; plural keys for form subsets {masks:?} (+ other), cardinal and ordinal; the generated `match category_for(count)` is executed for counts 0..=200 through td_string! (all), td! -> html (full-form keys, 0..=30), and td_plural!/td_plural_ordinal! (the category itself; `_` and `other` fallbacks, all or two forms given) and t_plural!/t_plural_ordinal! on a context and compared with ICU4X category_for called by the harness for the locale being rendered; two further probes render pt and pt-PT (same language, different CLDR rules at 0) in one process in either order; a fourth is built WITHOUT icu_compiled_data and takes the rules from a derived IcuDataProvider installed with set_icu_data_provider")));
+    cov.insert("rule".into(), json!(format!("locales {locales:?}; plural keys for form subsets {masks:?} (+ other), cardinal and ordinal; the generated `match category_for(count)` is executed for counts 0..=200 through td_string! (all), td! -> html (full-form keys, 0..=30; also with the view object made while the count closure gave another number), and td_plural!/td_plural_ordinal! (the category itself; `_` and `other` fallbacks, all or two forms given) and t_plural!/t_plural_ordinal! on a context and compared with ICU4X category_for called by the harness for the locale being rendered; two further probes render pt and pt-PT (same language, different CLDR rules at 0) in one process in either order; a fourth is built WITHOUT icu_compiled_data and takes the rules from a derived IcuDataProvider installed with set_icu_data_provider")));
     cov.insert("exhaustive".into(), json!(tier == Tier::Thorough));
     rep.finish(cov, &["ICU4X compiled CLDR data is the trusted base"])
 }
@@ -2417,6 +2445,39 @@ fn c07_c08(tier: Tier, pid: &str) -> i32 {
     if let Some(tc) = tags_case {
         let _ = execute_reporting(&rep, pid, vec![tc]);
     }
+    // namespaces declared in an order that is not the alphabetical one, each with its own key set and its own
+    // argument sets: every key of every namespace renders its own text with exactly its own arguments
+    if pid == "C07" {
+        let orders: Vec<Vec<&str>> = if tier == Tier::Thorough {
+            permutations(3).into_iter().map(|pm| pm.iter().map(|i| ["alpha", "mid", "zeta"][*i]).collect()).collect()
+        } else {
+            vec![vec!["zeta", "alpha", "mid"]]
+        };
+        let mut ns_cases = vec![];
+        for (oi, order) in orders.iter().enumerate() {
+            let mut np = Project::new(Config::simple("en", &["fr", "en"]).with_namespaces(order));
+            for l in ["en", "fr"] {
+                np.set_file(Some("alpha"), l, vec![("a1".into(), st(&format!("[{l}.alpha.a1]"))), ("shared".into(), s(vec![text(&format!("[{l}.alpha.shared]")), var("x")]))]);
+                np.set_file(
+                    Some("mid"),
+                    l,
+                    vec![
+                        ("m1".into(), s(vec![text(&format!("[{l}.mid.m1]")), var("y"), comp("b", vec![text("in")])])),
+                        ("m2_one".into(), st(&format!("[{l}.mid.m2.one]"))),
+                        ("m2_other".into(), s(vec![text(&format!("[{l}.mid.m2.other]")), var("count")])),
+                        ("shared".into(), st(&format!("[{l}.mid.shared]"))),
+                        ("g".into(), Val::Sub(vec![("inner".into(), st(&format!("[{l}.mid.g.inner]")))])),
+                    ],
+                );
+                np.set_file(Some("zeta"), l, vec![("shared".into(), s(vec![text(&format!("[{l}.zeta.shared]")), var("z"), var("w")])), ("z1".into(), st(&format!("[{l}.zeta.z1]"))), ("z2".into(), st(&format!("[{l}.zeta.z2]"))), ("z3".into(), st(&format!("[{l}.zeta.z3]")))]);
+            }
+            let mut nc = Case::new(&format!("c07_{}_nsorder{oi}", tier.name()), np);
+            nc.add_all_keys(&[Flavour::TdString, Flavour::Td], &[Num::I(1), Num::I(3)], 1);
+            ns_cases.push(nc);
+        }
+        rep.count("namespace_declaration_orders", ns_cases.len() as u64);
+        let _ = execute_reporting(&rep, pid, ns_cases);
+    }
     if !execute_reporting(&rep, pid, vec![c]).is_empty() {
         // the crate holding load_locales!() does not compile at all (reported above): no bin of it can tell anything
         let mut cov = serde_json::Map::new();
@@ -2445,7 +2506,7 @@ fn c07_c08(tier: Tier, pid: &str) -> i32 {
     rep.sample(json!({"must_not_compile": negatives[0].1, "reason": negatives[0].2}));
     rep.sample(json!({"must_not_compile": "let _ = td_string!(Locale::fr, only_fr).to_string();", "reason": "surplus key is unreachable"}));
     let mut cov = serde_json::Map::new();
-    cov.insert("rule".into(), json!("three-locale project whose keys mix kinds across locales (string / variables / components / range / plural / renamed-count foreign key / null) plus a surplus key and a group, plus every forest of <= 3 (thorough 4) nodes over {text, x, <b>, <i>} in which a component name occurs more than once (side by side, nested in itself, nested in another and used again later; the other locale holds the mirrored value); positive: every default-locale key with exactly the union of arguments compiles and renders the reference text in every locale (td_string!, td!); negative: one [[bin]] per omitted argument of every key, per unknown argument, and for a surplus key, a misspelt key, a group used as a value and a value used as a group - each checked with `cargo check --message-format=json` and required NOT to compile (a positive control bin must compile)"));
+    cov.insert("rule".into(), json!("three-locale project whose keys mix kinds across locales (string / variables / components / range / plural / renamed-count foreign key / null) plus a surplus key and a group, plus every forest of <= 3 (thorough 4) nodes over {text, x, <b>, <i>} in which a component name occurs more than once (side by side, nested in itself, nested in another and used again later; the other locale holds the mirrored value); C07: three namespaces with different key sets and argument sets declared in a non-alphabetical order (thorough: all 6 orders); positive: every default-locale key with exactly the union of arguments compiles and renders the reference text in every locale (td_string!, td!); negative: one [[bin]] per omitted argument of every key, per unknown argument, and for a surplus key, a misspelt key, a group used as a value and a value used as a group - each checked with `cargo check --message-format=json` and required NOT to compile (a positive control bin must compile)"));
     cov.insert("exhaustive".into(), json!(true));
     rep.finish(cov, &["the compile error of a negative probe is attributed to the probed call: each bin contains nothing else"])
 }
